@@ -1,2 +1,55 @@
+use crate::vj;
+use libhaystack::filter::nodes::*;
+use libhaystack::filter::path::Path;
+use libhaystack::filter::Filter;
+use libhaystack::val::*;
 use serde_json::{json, Value as J};
-pub fn run(api: &str, _case: &J) -> J { json!({"bad_api": api}) }
+
+fn path_to(p: &Path) -> J { J::Array(p.iter().map(|s| vj::hs(&s.to_string())).collect()) }
+
+pub fn or_to(o: &Or) -> J { json!({"or": o.ands.iter().map(and_to).collect::<Vec<_>>()}) }
+fn and_to(a: &And) -> J { json!({"and": a.terms.iter().map(term_to).collect::<Vec<_>>()}) }
+fn op_name(o: &CmpOp) -> &'static str {
+    match o { CmpOp::Eq => "Eq", CmpOp::NotEq => "NotEq", CmpOp::LessThan => "LessThan", CmpOp::LessThanEq => "LessThanEq", CmpOp::GreatThan => "GreatThan", CmpOp::GreatThanEq => "GreatThanEq" }
+}
+fn term_to(t: &Term) -> J {
+    match t {
+        Term::Parens(p) => json!({"parens": or_to(&p.or)}),
+        Term::Has(h) => json!({"has": path_to(&h.path)}),
+        Term::Missing(m) => json!({"missing": path_to(&m.path)}),
+        Term::IsA(i) => json!({"isa": vj::hs(&i.symbol.value)}),
+        Term::WildcardEq(w) => json!({"weq": {"id": path_to(&w.id), "ref": vj::to(&Value::Ref(w.ref_value.clone()))}}),
+        Term::Relation(r) => json!({"rel": {"rel": vj::hs(&r.rel.value), "term": r.rel_term.as_ref().map(|s| vj::hs(&s.value)),
+                                      "ref": r.ref_value.as_ref().map(|r| vj::to(&Value::Ref(r.clone())))}}),
+        Term::Cmp(c) => json!({"cmp": {"path": path_to(&c.path), "op": op_name(&c.op), "v": vj::to(&c.value)}}),
+    }
+}
+
+pub fn run(api: &str, case: &J) -> J {
+    match api {
+        "filter_parse" => {
+            let data = vj::unhex(case["in"].as_str().unwrap());
+            let text = match std::str::from_utf8(&data) { Ok(t) => t, Err(_) => return json!({"bad_case": "not utf-8"}) };
+            match Filter::try_from(text) {
+                Ok(f) => json!({"ok": or_to(&f.or), "text": vj::hex(f.to_string().as_bytes())}),
+                Err(e) => json!({"err": e.to_string()}),
+            }
+        }
+        "filter_reparse" => {
+            // print-then-parse on a parsed filter
+            let data = vj::unhex(case["in"].as_str().unwrap());
+            let text = std::str::from_utf8(&data).unwrap();
+            match Filter::try_from(text) {
+                Ok(f) => {
+                    let printed = f.to_string();
+                    match Filter::try_from(printed.as_str()) {
+                        Ok(g) => json!({"ok": or_to(&g.or), "first": or_to(&f.or), "same": f == g, "text": vj::hex(printed.as_bytes())}),
+                        Err(e) => json!({"err2": e.to_string(), "first": or_to(&f.or), "text": vj::hex(printed.as_bytes())}),
+                    }
+                }
+                Err(e) => json!({"err": e.to_string()}),
+            }
+        }
+        other => crate::apis3::run(other, case),
+    }
+}
